@@ -14,9 +14,13 @@ namespace Sess
 /-- the message type octet of a frame -/
 def wireType (w : Bytes) : Nat := (w.getD 18 0).toNat
 
-/-- is this output the write, on connection `i`, of a message of type `ty`? -/
+/-- the statistics key a message type is counted under: the two ROUTE-REFRESH type codes (5, and 128 of the Cisco
+    pre-standard capability) share the counter RouteRefresh -/
+def wireKind (w : Bytes) : Nat := if wireType w = 128 then 5 else wireType w
+
+/-- is this output the write, on connection `i`, of a message counted under `ty`? -/
 def isW (i ty : Nat) : Out → Bool
-  | .write j w => j == i && wireType w == ty
+  | .write j w => j == i && wireKind w == ty
   | _ => false
 
 def isWrite : Out → Bool
@@ -246,7 +250,7 @@ theorem sentOf_incOpens (st : Stats) (ty : Nat) : sentOf (incOpens st) ty = sent
 
 /-- counting one message and writing one message of the same type on the same connection is balanced -/
 theorem bal_count_write (s : Sess) (i t : Nat) (g : Stats → Stats) (w : Bytes) (hlt : i < s.conns.length)
-    (hg : ∀ st ty, sentOf (g st) ty = sentOf st ty + if ty = t then 1 else 0) (hw : wireType w = t) :
+    (hg : ∀ st ty, sentOf (g st) ty = sentOf st ty + if ty = t then 1 else 0) (hw : wireKind w = t) :
     Bal s ((s.bumpSent i g).emit (.write i w)) := by
   intro j ty
   have ho : ((s.bumpSent i g).emit (.write i w)).outs = s.outs ++ [.write i w] := rfl
@@ -264,6 +268,9 @@ theorem bal_count_write (s : Sess) (i t : Nat) (g : Stats → Stats) (w : Bytes)
       simp [ht, this]
   · have hji : ¬ (i == j) = true := by simpa using hj
     simp [hj]
+
+theorem wireKind_of_type {w : Bytes} {t : Nat} (h : wireType w = t) (ht : t ≠ 128) : wireKind w = t := by
+  unfold wireKind; rw [h, if_neg ht]
 
 theorem wireType_keepalive : wireType constructKeepalive = 4 := by decide
 
@@ -291,12 +298,12 @@ theorem wireType_notif (e sub : Nat) (d : Bytes) : wireType (notifWire e sub d) 
 
 theorem bal_sendKeepalive {s : Sess} {i : Nat} (h : Norm s i) : Bal s s.sendKeepalive := by
   rw [sendKeepalive_norm h]
-  exact bal_count_write s i 4 _ _ h.lt sentOf_incKeepalives wireType_keepalive
+  exact bal_count_write s i 4 _ _ h.lt sentOf_incKeepalives (wireKind_of_type wireType_keepalive (by decide))
 
 theorem bal_sendNotification {s : Sess} {i : Nat} (h : Norm s i) (e sub : Nat) (d : Bytes)
     (he : e < 256) (hs : sub < 256) (hd : d.length + 21 < 65536) : Bal s (s.sendNotification e sub d) := by
   rw [sendNotification_norm h e sub d he hs hd]
-  exact bal_count_write s i 3 _ _ h.lt sentOf_incNotifications (wireType_notif e sub d)
+  exact bal_count_write s i 3 _ _ h.lt sentOf_incNotifications (wireKind_of_type (wireType_notif e sub d) (by decide))
 
 theorem wireType_openWire (s : Sess) (w : Bytes) (h : s.openWire = some w) : wireType w = 1 := by
   unfold openWire constructOpen at h
@@ -324,7 +331,7 @@ theorem bal_sendOpen {s : Sess} {i : Nat} (hp : s.proto = some i) (hlt : i < s.c
     have hb : Bal (s.withLocalCaps (negotiateCaps s.localCaps s.remote))
         (((s.withLocalCaps (negotiateCaps s.localCaps s.remote)).emit (.write i w)).bumpSent i incOpens) := by
       have := bal_count_write (s.withLocalCaps (negotiateCaps s.localCaps s.remote)) i 1 incOpens w hlt sentOf_incOpens
-        (wireType_openWire s w hw)
+        (wireKind_of_type (wireType_openWire s w hw) (by decide))
       intro j ty
       have h1 := this j ty
       have e1 : (((s.withLocalCaps (negotiateCaps s.localCaps s.remote)).emit (.write i w)).bumpSent i incOpens).outs =
